@@ -88,6 +88,9 @@ type resolvedInfo struct {
 	resolvedDynamicRef *Schema
 	// The anchor to look up on the stack when the dynamic ref acts dynamically.
 	dynamicRefAnchor string
+	// The lexically referenced schema of a dynamic ref that acts dynamically.
+	// It is the target when no resource on the stack declares the anchor.
+	dynamicRefFallback *Schema
 
 	// The following fields are independent of arguments to Schema.Resolved,
 	// so they could live on the Schema. We put them here for simplicity.
@@ -504,6 +507,9 @@ func (r *resolver) resolveRefs(rs *Resolved) error {
 				// The dynamic ref's fragment points to a dynamic anchor.
 				// We must resolve the fragment at validation time.
 				info.dynamicRefAnchor = frag
+				// If no resource in the dynamic scope declares the anchor, the
+				// lexically referenced schema is the target.
+				info.dynamicRefFallback = refSchema
 			} else {
 				// There is no dynamic anchor in the lexically referenced schema,
 				// so the dynamic ref behaves like a lexical ref.
